@@ -1418,7 +1418,7 @@ func (c *Client) sendSingleMsg(client *smtp.Client, message *Msg) error {
 			client.SetDSNMailReturnOption(string(c.dsnReturnType))
 		}
 	}
-	if err = client.Mail(from); err != nil {
+	if err = client.Mail(quoteLocalPart(from)); err != nil {
 		retError := &SendError{
 			Reason: ErrSMTPMailFrom, errlist: []error{err}, isTemp: isTempError(err),
 			affectedMsg: message, errcode: errorCode(err),
@@ -1434,7 +1434,7 @@ func (c *Client) sendSingleMsg(client *smtp.Client, message *Msg) error {
 	rcptNotifyOpt := strings.Join(c.dsnRcptNotifyType, ",")
 	client.SetDSNRcptNotifyOption(rcptNotifyOpt)
 	for _, rcpt := range rcpts {
-		if err = client.Rcpt(rcpt); err != nil {
+		if err = client.Rcpt(quoteLocalPart(rcpt)); err != nil {
 			rcptSendErr.Reason = ErrSMTPRcptTo
 			rcptSendErr.errlist = append(rcptSendErr.errlist, err)
 			rcptSendErr.rcpt = append(rcptSendErr.rcpt, rcpt)
@@ -1503,6 +1503,50 @@ func (c *Client) abortTransaction(client *smtp.Client, sendErr *SendError) {
 		sendErr.errlist = append(sendErr.errlist, resetSendErr)
 		_ = client.Close()
 	}
+}
+
+// quoteLocalPart returns the given mail address in the form that is valid in a SMTP command.
+//
+// The address of a mail.Address holds the local part in its unquoted form. A local part that is
+// not a dot-atom (it contains a space, "<", ">", "@", a quote, ...) has to be transmitted as
+// quoted-string (RFC 5321, section 4.1.2), otherwise the MAIL FROM/RCPT TO command is malformed,
+// addresses a different mailbox or carries additional parameters.
+//
+// Parameters:
+//   - addr: The mail address with an unquoted local part.
+//
+// Returns:
+//   - The mail address with its local part quoted, if required.
+func quoteLocalPart(addr string) string {
+	at := strings.LastIndex(addr, "@")
+	if at < 0 {
+		return addr
+	}
+	local, domain := addr[:at], addr[at:]
+	isDotAtom := local != "" && !strings.HasPrefix(local, ".") && !strings.HasSuffix(local, ".") &&
+		!strings.Contains(local, "..")
+	for i := 0; i < len(local) && isDotAtom; i++ {
+		char := local[i]
+		switch {
+		case char >= 'a' && char <= 'z', char >= 'A' && char <= 'Z', char >= '0' && char <= '9', char >= 0x80:
+		case strings.IndexByte("!#$%&'*+-/=?^_`{|}~.", char) >= 0:
+		default:
+			isDotAtom = false
+		}
+	}
+	if isDotAtom {
+		return addr
+	}
+	var quoted strings.Builder
+	quoted.WriteByte('"')
+	for i := 0; i < len(local); i++ {
+		if local[i] == '"' || local[i] == '\\' {
+			quoted.WriteByte('\\')
+		}
+		quoted.WriteByte(local[i])
+	}
+	quoted.WriteByte('"')
+	return quoted.String() + domain
 }
 
 // checkConn ensures that a required server connection is available and extends the connection
